@@ -755,10 +755,10 @@ func (f *Frame) exec(ins ssa.Instruction) {
 		for _, b := range x.Bindings {
 			bs = append(bs, f.val(b))
 		}
-		id := vc.freshRef("closure:"+x.Fn.Name(), x.Type())
+		id := f.newRef("closure:"+x.Fn.Name(), x.Type())
 		f.vals[x] = &Closure{fn: x.Fn.(*ssa.Function), bindings: bs, id: id}
 	case *ssa.MakeMap:
-		r := vc.freshRef("map", x.Type())
+		r := f.newRef("map", x.Type())
 		key := f.mapKey(x.Type())
 		ms := f.mapValSort(x.Type())
 		as := "(Array Int " + ms + ")"
@@ -766,7 +766,7 @@ func (f *Frame) exec(ins ssa.Instruction) {
 		f.setCell(f.cur, key, as, sx("store", arr, r.t, f.emptyMap(x.Type())))
 		f.vals[x] = r
 	case *ssa.MakeChan:
-		f.vals[x] = vc.freshRef("chan", x.Type())
+		f.vals[x] = f.newRef("chan", x.Type())
 	case *ssa.MakeSlice:
 		f.execMakeSlice(x)
 	case *ssa.Slice:
@@ -865,11 +865,11 @@ func (f *Frame) execAlloc(x *ssa.Alloc) {
 	key := f.allocCellKey(x)
 	switch {
 	case key == "OBJ":
-		r := vc.freshRef("new:"+vc.S.typeName(et), x.Type())
+		r := f.newRef("new:"+vc.S.typeName(et), x.Type())
 		f.storeStruct(f.cur, r.t, et, Val{vc.S.zero(et), vc.sortOf(et), et})
 		f.vals[x] = r
 	case strings.HasPrefix(key, "D:"):
-		r := vc.freshRef("new:"+vc.S.typeName(et), x.Type())
+		r := f.newRef("new:"+vc.S.typeName(et), x.Type())
 		p := &Ptr{root: key, ref: r.t, rootT: et, elemT: et}
 		f.storePtr(f.cur, p, Val{vc.S.zero(et), vc.sortOf(et), et})
 		f.vals[x] = p
@@ -945,6 +945,7 @@ func (f *Frame) execUnOp(x *ssa.UnOp) {
 			vc.assume(wt)
 		}
 		f.vals[x] = v
+		f.assumeAlive(f.cur, v)
 		if cl, ok := vc.P.closures[v.t]; ok {
 			f.vals[x] = cl
 		}
@@ -1263,6 +1264,7 @@ func (f *Frame) execLookup(x *ssa.Lookup) {
 	c := vc.fresh("lookup", vs)
 	vc.assume(eq(c, v))
 	vc.assume(vc.S.wellTyped(c, mt.Elem(), 1))
+	f.assumeAlive(f.cur, Val{c, vs, mt.Elem()})
 	if x.CommaOk {
 		f.vals[x] = Tuple{Val{c, vs, mt.Elem()}, Val{in, SBool, types.Typ[types.Bool]}}
 	} else {
